@@ -213,6 +213,9 @@ def h_project_grid(ctx):
     for i in range(sh[0]):
         ctx.claim("projected northing nodes", eq(out.coords["northing"].values[i], north[i] * c + d))
     ov = out.values
+    if ctx.sym and not stubs.DELAUNAY_LOG:
+        ctx.claim("the hull is taken over the projected cells that carry data, and tested at every projected grid node", False)
+        return
     if ctx.sym:
         rec = stubs.DELAUNAY_LOG[-1]
         ndata = sh[0] * sh[1] - (1 if hole else 0)
